@@ -14,7 +14,9 @@ NearMiss == { Id0("Length"), Id0("CONCAT"), Id0("matchespattern"), Id0("MatchesP
               Id0("distance"), Id0("intersects"), Id0("foo"), Id0("not"), Id0("isof"), Id0("cast"),
               Id(<<"geo">>, "contains"), Id(<<"geo">>, "Length"), Id(<<"geo">>, "area"), Id(<<"Geo">>, "length"),
               Id(<<"geo", "x">>, "length"), Id(<<"x", "geo">>, "length") }
-Custom == { Id(<<"f">>, "length"), Id(<<"my">>, "func"), Id(<<"x", "y">>, "now"), Id(<<"odata">>, "concat") }
+Custom == { Id(<<"f">>, "length"), Id(<<"my">>, "func"), Id(<<"x", "y">>, "now"), Id(<<"odata">>, "concat"),
+            \* namespaces that are fragments or extensions of "geo": still custom namespaces
+            Id(<<"g">>, "distance"), Id(<<"ge">>, "length"), Id(<<"eo">>, "intersects"), Id(<<"o">>, "trim"), Id(<<"geog">>, "length") }
 Names == BuiltinNames \cup NearMiss \cup Custom
 Styles == {"lit", "call", "list", "path", "mixed", "named"}
 
